@@ -19,22 +19,23 @@
    bytes Marshal produced for its value, and Load succeeds exactly on the
    stored byte strings listed in [dec] (those some Marshal produced in the same
    run) -- the C03 codec hypothesis. *)
-From Coq Require Import List Arith Bool ZArith.
+From Coq Require Import List Arith Bool ZArith NArith.
 Import ListNotations.
 
-Definition bytes := list nat.
+(* bytes are binary naturals (N): cases hold long byte strings as literals *)
+Definition bytes := list N.
 
 Fixpoint bytes_eqb (a b : bytes) : bool :=
   match a, b with
   | [], [] => true
-  | x :: a', y :: b' => (x =? y) && bytes_eqb a' b'
+  | x :: a', y :: b' => N.eqb x y && bytes_eqb a' b'
   | _, _ => false
   end.
 
 (* "version", "_", "dbVersion" *)
-Definition sfx_version : bytes := [118; 101; 114; 115; 105; 111; 110].
-Definition sfx_us : bytes := [95].
-Definition key_dbversion : bytes := [100; 98; 86; 101; 114; 115; 105; 111; 110].
+Definition sfx_version : bytes := [118; 101; 114; 115; 105; 111; 110]%N.
+Definition sfx_us : bytes := [95]%N.
+Definition key_dbversion : bytes := [100; 98; 86; 101; 114; 115; 105; 111; 110]%N.
 
 Definition data_bucket (n : bytes) : bytes := n.
 Definition ver_bucket (n : bytes) : bytes := n ++ sfx_version.
@@ -83,11 +84,11 @@ Definition wrap32 (z : Z) : Z := ((z + 2147483648) mod 4294967296 - 2147483648)%
 
 Definition le32 (z : Z) : bytes :=
   let u := (z mod 4294967296)%Z in
-  [ Z.to_nat (u mod 256); Z.to_nat ((u / 256) mod 256);
-    Z.to_nat ((u / 65536) mod 256); Z.to_nat ((u / 16777216) mod 256) ].
+  [ Z.to_N (u mod 256); Z.to_N ((u / 256) mod 256);
+    Z.to_N ((u / 65536) mod 256); Z.to_N ((u / 16777216) mod 256) ].
 
-Definition sle32 (b0 b1 b2 b3 : nat) : Z :=
-  wrap32 (Z.of_nat b0 + 256 * Z.of_nat b1 + 65536 * Z.of_nat b2 + 16777216 * Z.of_nat b3)%Z.
+Definition sle32 (b0 b1 b2 b3 : N) : Z :=
+  wrap32 (Z.of_N b0 + 256 * Z.of_N b1 + 65536 * Z.of_N b2 + 16777216 * Z.of_N b3)%Z.
 
 (* ---- operations of one service ------------------------------------------ *)
 
@@ -203,7 +204,7 @@ End Exec.
 Fixpoint is_prefix (p l : bytes) : bool :=
   match p, l with
   | [], _ => true
-  | x :: p', y :: l' => (x =? y) && is_prefix p' l'
+  | x :: p', y :: l' => N.eqb x y && is_prefix p' l'
   | _ :: _, [] => false
   end.
 
